@@ -8,6 +8,7 @@ iterable are unrolled; calls to functions that have a contract use the contract
 (never the body); calls to functions marked inline are executed in place.
 """
 import ast
+import os
 import re
 import importlib
 import sys
@@ -1602,6 +1603,12 @@ class Exec(object):
             return r
         # general case: a fresh string defined pointwise by two universally quantified facts
         ctx = self.ctx
+        if os.environ.get("PYVC_CONCAT", "lambda") == "lambda":
+            # the concatenation as a lambda-defined array: selecting from it beta-reduces, no quantifier is involved
+            i = z3.Int("q_cat_i")
+            arr = z3.Lambda([i], z3.If(i < a.length, a.at(i), b.at(i - a.length)))
+            return SStr(z3.simplify(a.length + b.length), arr, z3.IntVal(0), is_bytes=a.is_bytes or b.is_bytes,
+                        maxlen=(a.max_len() + b.max_len()) if a.max_len() is not None and b.max_len() is not None else None)
         r = ctx.fresh_str("cat", is_bytes=a.is_bytes or b.is_bytes)
         ctx.assume(r.length == a.length + b.length)
         i = z3.Int("q_cat_i")
